@@ -915,6 +915,9 @@ class Rewriter:
         b = self.sub('R27:raw-reborrow', r'&mut \*(?=[\w:])', '', b)
         b = self.sub('R27:raw-reborrow', r'&\*(?=self\.0)', '', b)
         last = lambda fn: (lambda m_, a: '%s(%s)' % (fn, ', '.join(a + ['st'])))     # the ghost store goes LAST: nested calls borrow it first
+        b = self.sub('R27:empty-slice', r'&mut \[\]', 'empty_slice_cell(st)', b)
+        b = self.sub('R27:default-slice', r'\bBox::<\[u8\]>::default\(\)', 'Self::default_slice(st)', b)
+        b = self.sub('R2:ptr-cast', r'\s+as \*mut str\b', '', b)
         b = self.map_calls(b, r'(?<![\w:])Box', last('box_ctor'), 'R27:ctor')
         b = self.map_calls(b, r'\bManuallyDrop::new', last('md_new'), 'R27:manually-drop')
         b = self.map_calls(b, r'(?<![\w:])Box::from_raw', last('BoxM::from_raw'), 'R27:from_raw')
